@@ -52,6 +52,7 @@ class Response:
         self.notes = 0
         self.note_texts = []
         self.stdout_noise = None
+        self.stderr_tail = ""
 
     def fatal_class(self):
         """Classify a run that did not finish cleanly; None if it did."""
@@ -95,6 +96,8 @@ class Zsim:
         self.env["LC_ALL"] = "C"
         self.env.pop("DEBUGINFOD_URLS", None)
         self.env["ZSIM_REPORT_PATH"] = os.path.join(self.tmpdir, "san.%d" % os.getpid())
+        self.env["UBSAN_OPTIONS"] = ("log_path=%s.ub:exitcode=77:print_stacktrace=1"
+                                     % self.env["ZSIM_REPORT_PATH"])
         if tests_dir:
             self.env["ZSIM_TESTS_DIR"] = tests_dir
         if extra_env:
@@ -173,7 +176,10 @@ class Zsim:
                         r.sig = int(v)
                 return r
             elif line.startswith("=log "):
-                r.log = P.hexdec(line[5:]).decode("latin-1", "replace")
+                r.log = P.hexdec(line[5:]).decode("latin-1", "replace") + r.log
+            elif line.startswith("=stderr "):
+                r.stderr_tail = P.hexdec(line[8:]).decode("latin-1", "replace")
+                r.log = r.log + "\n" + r.stderr_tail
             elif line.startswith("viol "):
                 t = line.split()
                 r.viol = (t[1], P.hexdec(t[2]).decode("latin-1") if len(t) > 2 else "")
